@@ -227,6 +227,15 @@ fn check_loaded(s: &mut Suite, what: &str, doc: &Doc, k: &KeyPair) {
 		// model: lookup by the AlgorithmIdentifier bytes
 		let (t, _) = crate::der::read_tlv(&spki).unwrap();
 		let kids = crate::der::children(t.content).unwrap();
+		// the whole of `from_der` on this (DER) input: algorithm and key octets
+		let full_real = match SubjectPublicKeyInfo::from_der(&spki) {
+			Ok(sp) => format!("(ok {} {})", alg_name(sp.algorithm()), hex(sp.der_bytes())),
+			Err(_) => "err".to_string(),
+		};
+		let full_model = s.drv.ask(&format!("spki-from-der {} {}", backend(), hex(&spki)));
+		if full_model != full_real {
+			s.rep.disagree("C11:spki-from-der", "model and implementation differ on SubjectPublicKeyInfo::from_der of an exported key", format!("spki={}\nreal: {}\nmodel: {}", hex(&spki), full_real, full_model));
+		}
 		let model = s.drv.ask(&format!("spki-lookup {} {}", backend(), hex(kids[0].whole)));
 		if model != real {
 			s.rep.disagree("C11:spki-lookup", "model and implementation differ on SubjectPublicKeyInfo parsing", format!("spki={}\nreal: {}\nmodel: {}", hex(&spki), real, model));
